@@ -4,7 +4,7 @@
 (* step by step -- an algorithm (kind, package, state vectors x values),   *)
 (* then for every earlier algorithm a subset of the reference              *)
 (* granularities with the state vector / value they name, finally up to    *)
-(* MaxFb feedback references (earlier algorithm <= value of a later one) -- *)
+(* MaxFb feedback references (any algorithm <= value of another one) --    *)
 (* and then Construct runs on it (module Dag) in a random iteration order.  *)
 (* Four algorithms give diamonds and shared inputs.  Every behaviour ends   *)
 (* in pc = "done", where the clauses of C09 are checked on the model and    *)
@@ -52,7 +52,7 @@ GenRefs ==
 GenFb ==
     /\ pc = "gen" /\ todo = <<>> /\ Cardinality(AlgsOf(prog)) = NAlg /\ nfb > 0
     /\ LET o == Order(prog) IN
-       \E i \in 1..NAlg, j \in 1..NAlg : i < j /\
+       \E i \in 1..NAlg, j \in 1..NAlg : i # j /\
           \E gran \in {"sv", "val"}, x \in prog.vals[o[j]] :
              prog' = [prog EXCEPT !.fb[o[i]] = @ \cup { [src |-> o[j], gran |-> gran, sv |-> x[1],
                                                          val |-> IF gran = "val" THEN x[2] ELSE ""] }]
